@@ -208,7 +208,7 @@ def fold_linqset_setitem(m: Model, deep=False):
                 arrivals = list(UNIVERSE + ('e',))
             for arr in arrivals:
                 links = [Link(v) for v in seq]
-                self_ = Obj('linqset')
+                self_ = Obj('linqset', __srcclass__=(m, ClassRef(LNK, 'linqset')))      # private helpers the mutator may be split into resolve through the class
                 setattr(self_, '__table', {l.value: l for l in links})
                 self_._link_at = lambda i, links=links: links[i]
                 self_.__class__ = type('LQ', (Obj,), {
